@@ -125,6 +125,19 @@ def run(chk: Check) -> None:
                     else:
                         r1.violation(key, f.loc(e), f"branch for operator {sym!r} computes {what}")
 
+    # in the constant folders an operator's branch returns the operator's result or None ("not folded"), never a fixed value
+    for q, f in sorted(ix.functions.items()):
+        if f.parent is not None or f.module.name not in ("mypy.constant_fold", "mypyc.irbuild.constant_fold"):
+            continue
+        for n in walk_no_nested(f.node):
+            if not isinstance(n, ast.If):
+                continue
+            for name, sym in op_tests(n.test):
+                for st in branch_stmts(n.body):
+                    if isinstance(st, ast.Return) and isinstance(st.value, ast.Name) and st.value.id in [a.arg for a in f.params] and st.value.id != name and sym in UN and len(f.params) == 2:
+                        r1.violation(f"{q}: {name} == {sym!r} -> return {st.value.id}", f.loc(st), f"the branch for the unary operator {sym!r} returns its operand unchanged: `{sym}True` is the int 1 in Python, not True")
+                    if isinstance(st, ast.Return) and isinstance(st.value, ast.Constant) and st.value.value is not None:
+                        r1.violation(f"{q}: {name} == {sym!r} -> return {norm(st.value)}", f.loc(st), f"the branch for operator {sym!r} returns the fixed value {norm(st.value)} for some operands instead of applying the operator (or answering None for `not folded`): a short cut that is right for non-negative operands only, for example, folds `-8 >> 4` to 0 where Python gives -1")
     # ---------------- R12.2
     r2 = chk.rule("R12.2", "operator tables agree with the language reference (dunder names, reflected/in-place names, mirrored/negated/flipped comparisons) and mypyc's ComparisonOp/IntOp tables agree with the spelling", floor=9)
     mo = ix.module("mypy.operators")
